@@ -229,6 +229,25 @@ func main() {
 				return []byte(`{"targetArtifact":` + string(first) + `,"targetArtifact":{}}`)
 			}
 		}, true},
+		// a descriptor member TWICE (the plugin's choice first, the requested value last) with an array of containers between
+		// the two occurrences, tucked into a member the checks tolerate. (COSE only: the JWS writer of the signing library
+		// re-encodes the payload through a map, which removes the repetition before anything is signed.)
+		{"cose-only:duplicate-digest-member-around-an-array-of-objects", "envelope", func(s *script) {
+			s.mutate = func(b []byte) []byte {
+				var m map[string]json.RawMessage
+				json.Unmarshal(b, &m)
+				inner := bytes.TrimSpace(m["targetArtifact"])
+				return []byte(`{"targetArtifact":{"digest":"` + otherDigest + `","platform":{"x":[{}]},` + string(inner[1:]) + `}`)
+			}
+		}, true},
+		{"cose-only:duplicate-size-member-around-nested-arrays", "envelope", func(s *script) {
+			s.mutate = func(b []byte) []byte {
+				var m map[string]json.RawMessage
+				json.Unmarshal(b, &m)
+				inner := bytes.TrimSpace(m["targetArtifact"])
+				return []byte(`{"targetArtifact":{"size":4242,"platform":{"y":[[1],[2,[3]]],"z":[{"a":[{}]}]},` + string(inner[1:]) + `}`)
+			}
+		}, true},
 		// extra members that happen to be NAMED like members of the other level
 		{"extra-payload-field-named-digest", "envelope", func(s *script) {
 			s.mutate = edit(func(m map[string]any) { m["digest"] = "sha256:" + strings.Repeat("0", 64) })
@@ -358,6 +377,9 @@ func main() {
 					continue
 				}
 				for di, d := range devs {
+					if strings.HasPrefix(d.name, "cose-only:") && format != lib.MediaCOSE {
+						continue
+					}
 					cases = append(cases, caseT{[]int{di}, d.mode, spec, format, blob, true})
 					if strings.Contains(strings.ToLower(d.name), "annotation") || d.mode == "raw" {
 						continue
@@ -367,7 +389,7 @@ func main() {
 				// pairs: a benign-looking deviation combined with a harmful one (the later check must not be skipped)
 				for di, d := range devs {
 					for dj, e := range devs {
-						if di >= dj || d.mode != "envelope" || e.mode != "envelope" {
+						if di >= dj || d.mode != "envelope" || e.mode != "envelope" || strings.HasPrefix(d.name, "cose-only:") || strings.HasPrefix(e.name, "cose-only:") {
 							continue
 						}
 						if (si+di+dj)%3 != 0 && r.Quick() {
@@ -445,7 +467,14 @@ func main() {
 		pv, stack := lib.Guard(func() {
 			opts := notation.SignerSignOptions{SignatureMediaType: c.format, ExpiryDuration: 24 * time.Hour}
 			if c.blob {
+				// the generator describes a STREAM: asked a first time it digests the blob; asked again, the stream is spent and
+				// what it describes is the empty blob (the generator notation.SignBlob builds over a reader behaves like this)
+				asked := 0
 				sig, info, serr = ps.SignBlob(context.Background(), func(alg digest.Algorithm) (ocispec.Descriptor, error) {
+					asked++
+					if asked > 1 {
+						return ocispec.Descriptor{MediaType: "application/octet-stream", Digest: alg.FromBytes(nil), Size: 0, Annotations: desc.Annotations}, nil
+					}
 					requested = ocispec.Descriptor{MediaType: "application/octet-stream", Digest: alg.FromBytes(content), Size: int64(len(content)), Annotations: desc.Annotations}
 					return requested, nil
 				}, opts)
